@@ -84,7 +84,7 @@ def run(ctx):
         for s in f.sites():
             if re.search(PANICS, s.callee) and not s.expn:
                 ctx.ob('C20.2', f, 'explicit-panic:' + s.name, False, '%s can panic on a frame-supplied value' % s.callee, line=s.line)
-            if re.search(r'core::ops::index::Index(Mut)?<.*>>::index(_mut)?$', s.callee) and re.search(r'alloc::string::String|^<str ', s.callee):
+            if re.search(r'core::ops::index::Index(Mut)?<.*>>::index(_mut)?$', s.callee) and re.search(r'alloc::string::String|^<str |for str>', s.callee):
                 nass += 1
                 start = None
                 o = f.origin(s.args[1])
